@@ -91,7 +91,7 @@ def row_valued_in_once(recipe):
 
 once_cluster = S.stream_once_cluster
 DIRECTED = [S.stream_once_cluster, S.stream_once_cluster, S.stream_once_hidden, S.stream_idle_middle, S.stream_idle_middle,
-            S.stream_randref_nicks]
+            S.stream_randref_nicks, S.stream_once_cluster_randref]
 
 
 def generate(rng, tier):
@@ -131,6 +131,16 @@ def run_impl(case):
         o = S.run_recipe(r, reps=k, continuation=cont, want_continuation=(i < len(ks) - 1),
                          draw_offset=sum(len(x.get("draws", [])) for x in runs))
         runs.append({kk: vv for kk, vv in o.items() if kk != "cont"})
+        if cont:          # the just_once rows the file this run started from carries: [table, id]
+            try:
+                import yaml
+                st = yaml.safe_load(cont)
+                runs[-1]["started_with"] = sorted(
+                    [v.get("_tablename"), (v.get("_values") or {}).get("id")]
+                    for m in ("persistent_nicknames", "persistent_objects_by_table")
+                    for v in (st.get(m) or {}).values() if isinstance(v, dict))
+            except Exception:
+                pass
         if "ok" not in o:
             break
         cont = o.get("cont")
@@ -199,7 +209,7 @@ def oracle(case, obs):
         return None        # the premise (the uninterrupted run completes) does not hold
     if any("ok" not in r for r in runs):
         bad = next(r for r in runs if "ok" not in r)
-        return f"continued-run-fails: uninterrupted run of {sum(case['ks'])} iterations completes, split {case['ks']} fails: {bad.get('msg','')[:100]}"
+        return f"continued-run-fails: uninterrupted run of {sum(case['ks'])} iterations completes, split {case['ks']} fails: {bad.get('msg','')[:160]}"
     td = obs.get("todays", [])
     if len(td) >= 2 and any(t != "2021-03-04" for t in td[1:]):
         return (f"today-not-carried: the dataset's `today` (2021-03-04 in the first continuation file) became {td[1:]} in "
@@ -256,8 +266,42 @@ def directed_search(rng, disagreeing):
     return out
 
 
+def randref_dereferenced(recipe):
+    """static signature of K11: a field / variable defined by random_reference is read through
+    (attribute other than `id`) somewhere in the recipe"""
+    import json as _json
+    names = set()
+
+    def defs(stmts):
+        for st in stmts:
+            if st[0] == "var":
+                if st[2][0] == "randref":
+                    names.add(st[1])
+            else:
+                for n, d in st[1]["fields"]:
+                    if d[0] == "randref":
+                        names.add(n)
+                    if d[0] == "nested":
+                        defs([["obj", d[1]]])
+                defs(st[1]["friends"])
+    defs(recipe["stmts"])
+    text = _json.dumps(recipe["stmts"])
+    return any(('["attr", ["var", "%s"], "' % n) in text and
+               any(('["attr", ["var", "%s"], "%s"]' % (n, f)) in text for f in ("f0", "f1", "f2", "f3", "f4", "__h0", "jo"))
+               for n in names)
+
+
 def match_finding(case, obs, msg, findings):
     for f in findings:
+        if f["id"] == "K11" and msg.startswith("continued-run-fails") and randref_dereferenced(case["recipe"]):
+            # only when the row that could not be loaded is one the continuation file does not carry; a row
+            # that IS in the file and still cannot be found is a different defect (cf. /repo 0aad1fc)
+            import re as _re
+            bad = next((r for r in obs.get("runs", []) if "ok" not in r), None)
+            m = _re.search(r"cannot find (\S+): (\d+)", (bad or {}).get("msg", ""))
+            if bad is not None and m and "started_with" in bad and \
+                    [m.group(1), int(m.group(2))] not in bad["started_with"]:
+                return "K11"
         if f["id"] in ("K1", "K2") and row_valued_in_once(case["recipe"]):
             if f["id"] == "K2" and ("RepresenterError" in msg or "cannot represent" in msg.lower()):
                 return "K2"
